@@ -73,6 +73,7 @@ def cases(tier, seed):
 def _run_failing(desc, V):
     from kingdon.multivector import MultiVector
     kapi.install_recorder()
+    kapi.reset_generation_counts()
     alg = make_alg(desc['cfg'])
     op = desc['op']
     d = alg.d
@@ -200,6 +201,7 @@ def run_case(desc, V):
         return _run_failing(desc, V)
     from kingdon.multivector import MultiVector
     kapi.install_recorder()
+    kapi.reset_generation_counts()
     alg = make_alg(desc['cfg'])          # own algebra: the history of this case only
     op = desc['op']
     rng = random.Random(desc['hseed'])
